@@ -70,4 +70,28 @@ PROPS['C07'] = {
     'technique': 'contract-based deductive verification (range obligations of to_rfi/to_mef/high_low) + bounded bitwise sweep on the real code',
 }
 
+PROPS['C01'] = {
+    'contracts': ['contracts.fcsio:DataSegment'],
+    'bounded': True,
+    'level': 'other',
+    'explanation': 'Proved (unbounded N, D, offsets, file content): read_fcs_data_segment for uniform integer widths 8/16/32/64 and '
+                   'F/D floats: size guard (last byte / one past), every value equals the bytes at offset begin+(i*D+j)*B in the declared '
+                   'byte order, range mask loop (invariant) reduces to the low ceil(log2 R) bits, result shape (N, D); unsupported layouts '
+                   '(ASCII, non-byte-aligned, >64 bit, wrong float width, unknown datatype) refused. FCSFile.__init__ glue: see FileInit. '
+                   'Mixed integer widths (per-byte accumulation loops with run-time dtype) are outside the prover: bounded stand-in only.',
+    'level_note': 'A-IO (memmap/read), A-INT, A-REAL(ceil, log2); mixed-width integer decoding is bounded only.',
+}
+
+PROPS['C16'] = {
+    'contracts': ['contracts.fcsio:DataSegment'],
+    'bounded': True,
+    'level': 'other',
+    'explanation': 'Proved (unbounded): a normal return of read_fcs_data_segment implies N*rowbytes in {declared extent, extent-1} AND '
+                   'begin+N*rowbytes <= file size, so every decoded value comes from bytes inside the intact DATA extent; any other '
+                   'declared size / missing bytes raises ValueError (uniform integer widths and floats; A-IO memmap axiom). TEXT/HEADER '
+                   'truncation, keyword corruption and mixed-width files: bounded stand-in only (truncation at every byte of generated '
+                   'files, single-field corruptions).',
+    'level_note': 'A-IO axioms for read/memmap; TEXT-side clauses are bounded only.',
+}
+
 NOT_APPLICABLE = {}
